@@ -67,6 +67,12 @@ func (f *inlineFragmentSelectionMergeVisitor) fieldsCanMerge(left, right int) bo
 		return false
 	}
 
+	// fields with different arguments are different selections: merging them would silently drop
+	// the arguments of the right one (and hide them from validation)
+	if !f.operation.ArgumentSetsAreEquals(f.operation.FieldArguments(left), f.operation.FieldArguments(right)) {
+		return false
+	}
+
 	leftDirectives := f.operation.FieldDirectives(left)
 	rightDirectives := f.operation.FieldDirectives(right)
 
